@@ -4175,6 +4175,10 @@ def _sort_import_statements(source: str) -> str:
         if len(nodes) < 2 or set(nodes) & replacements.keys():
             continue
 
+        # Sorting swaps whole statements: if one of them may not be touched, none can move
+        if any(core.has_ignore_comment(source, core.get_charnos(node, source)) for node in nodes):
+            continue
+
         sorted_nodes = sorted(nodes, key=_import_group_key)
         for node, sorted_node in zip(nodes, sorted_nodes):
             if node is not sorted_node:
